@@ -39,7 +39,7 @@ def gen(d, tier):
             v = G.g_var(d, max_buf=5, fails=False)
             v["rcb"] = v["wcb"] = 1
             vs.append(v)
-        c = S.mk_cmd(nm, h, vs)
+        c = S.mk_cmd(nm, h, vs, desc=(d.pick([b"help", b"a longer description text"]) if d.unlikely(1, 4) else None))
         if d.unlikely(1, 5):
             c["need_all"] = 1
         if d.unlikely(1, 5):
@@ -51,10 +51,19 @@ def gen(d, tier):
             c["h"] = "w" if "w" in c["h"] else ""
         cmds.append(c)
     G.fix_implicit_duplicates(cmds)
+    bare = 0
+    if d.unlikely(1, 10):
+        # a disabled command with an EMPTY name and a run handler: a bare "AT" line names nothing and must not reach it
+        e = S.mk_cmd(b"", "n" + ("r" if d.below(2) else ""), [])
+        e["disable"] = 1
+        cmds.insert(d.below(len(cmds) + 1), e)
+        n += 1
+        bare = 1
     groups = G.g_groups(d, cmds, maxgroups=3, disable=True)
     aliased = d.unlikely(1, 8) and G.add_alias(d, groups)   # one command array registered through two groups, one of them disabled
     # the two registrations of an aliased array keep their group flags (both enabled = every abbreviation of them ambiguous by construction)
     flippable = [gi for gi, g in enumerate(groups) if g.get("alias") is None and not any(x.get("alias") == gi for x in groups)]
+    flip_cmds = [i for i, c in enumerate(cmds) if c["name"] != b""]     # (the empty-name command stays disabled)
     inp = bytearray()
     actions = []
     nlines = d.rng(3, 10)
@@ -62,10 +71,13 @@ def gen(d, tier):
         # flag flips before this line (barrier li = li LFs consumed and quiescent)
         for _ in range(d.weighted([(3, 0), (4, 1), (2, 2), (1, 4)])):
             if d.chance(3, 4) or not flippable:
-                actions.append([S.AT_LINE, li, S.WA_SETDIS, d.below(n), d.below(2), None])
+                actions.append([S.AT_LINE, li, S.WA_SETDIS, d.pick(flip_cmds), d.below(2), None])
             else:
                 actions.append([S.AT_LINE, li, S.WA_SETGDIS, d.pick(flippable), d.below(2), None])
         c = d.pick(cmds)
+        if c["name"] == b"":
+            inp += d.pick([b"AT", b"at", b"AT?", b"AT="]) + (b"\r\n" if d.below(4) == 0 else b"\n")
+            continue
         nm = G.typed_name_for(d, c["name"], exact_bias=d.chance(2, 3))
         form = d.pick("nrwt")
         if form == "n":
